@@ -12,6 +12,7 @@ DEFAULT_PROFILE = {
     "slack": (0, 5),
     "p_release": 0.2,
     "p_due": 0.2,
+    "p_deadline": 0.6,       # a due date is a deadline with this probability (else it only feeds indicators)
     "p_priority": 0.3,
     "n_workers": (0, 3),
     "p_cumulative": 0.2,
@@ -49,6 +50,10 @@ FOCUS = {
                            p_assign=1.0, p_dynamic=0.05, p_delayed=0.05, p_work=0.0, p_release=0.1, p_due=0.0, p_horizon=0.9, slack=(1, 5),
                            constraints=["WorkLoad", "WorkLoad", "ResourceUnavailable", "ResourcePeriodicallyUnavailable", "ResourceTasksDistance",
                                         "ResourceNonDelay"], n_constraints=(1, 2)),
+    # release dates and mostly *soft* due dates under pressure on one worker: rules that reason about
+    # "must be over before the other may start" have to look at the deadline flag
+    "soft-due": dict(n_tasks=(2, 4), p_variable=0.2, p_zero=0.05, p_optional=0.15, n_workers=(1, 2), p_cumulative=0.15, p_select=0.3,
+                     p_assign=1.0, p_dynamic=0.05, p_delayed=0.05, p_work=0.0, p_release=0.6, p_due=0.7, p_deadline=0.25, p_horizon=0.9, slack=(0, 3)),
 }
 
 TASK_CONSTRAINT_KINDS = ["TaskStartAt", "TaskStartAfter", "TaskEndAt", "TaskEndBefore", "TaskPrecedence", "TasksStartSynced",
@@ -139,7 +144,7 @@ class Gen:
             if rng.random() < p["p_due"]:
                 lo = (t.get("release") or 0) + dur
                 t["due"] = rng.randint(max(0, lo - 1), max(lo, hz))
-                t["deadline"] = rng.random() < 0.6
+                t["deadline"] = rng.random() < p.get("p_deadline", 0.6)
         if rng.random() < p["p_calendar"]:
             spec["delta_time_s"] = rng.choice([60, 900, 3600, 86400])
             if rng.random() < 0.7:
